@@ -758,6 +758,8 @@ def _gen_document(entry, rng, fill, maxrep, opt_prob, charset, rich, n_isa, n_gs
                 start = len(g.out)
                 st = st_loop.first_seg()
                 stctl = '%04d' % (si + 1)
+                if int(ctl_isa) % 4 == 1:
+                    stctl = ['ELIG%04d', 'A%03d', '%03dX', 'SET-%04d'][int(ctl_isa) % 16 // 4] % (si + 1)     # the set control number is alphanumeric (AN 4/9)
                 stv = g.seg_values(st)
                 stv[1] = stctl
                 g.out.append(Rec(st, stv, list(g.chain)))
